@@ -275,7 +275,14 @@ where
             match maybe_event {
               Ok(event) => self.process_system_event(event).await,
               Err(broadcast::error::RecvError::Lagged(n)) => {
-                self.set_fatal_error(ZmqError::Internal(format!("System event lagged by {}", n))).await;
+                // skipped events are no reason to drop a working connection; a close or term
+                // among them shows in the flags
+                tracing::warn!(sca_handle = self.handle, skipped = n, "System event bus lagged for session.");
+                if !self.socket_logic.core().is_running()
+                  || self.actor_config.context.inner().shutdown_initiated.load(Ordering::Acquire)
+                {
+                  self.on_parent_closing().await;
+                }
               }
               Err(broadcast::error::RecvError::Closed) => {
                 self.set_fatal_error(ZmqError::Internal("System event channel closed".into())).await;
@@ -537,7 +544,14 @@ where
             match maybe_event {
               Ok(event) => self.process_system_event(event).await,
               Err(broadcast::error::RecvError::Lagged(n)) => {
-                self.set_fatal_error(ZmqError::Internal(format!("System event lagged by {}", n))).await;
+                // skipped events are no reason to drop a working connection; a close or term
+                // among them shows in the flags
+                tracing::warn!(sca_handle = self.handle, skipped = n, "System event bus lagged for session.");
+                if !self.socket_logic.core().is_running()
+                  || self.actor_config.context.inner().shutdown_initiated.load(Ordering::Acquire)
+                {
+                  self.on_parent_closing().await;
+                }
               }
               Err(broadcast::error::RecvError::Closed) => {
                 self.set_fatal_error(ZmqError::Internal("System event channel closed".into())).await;
